@@ -9,7 +9,7 @@ def common_jobs(func_lex, func_gram, why, tier, known, gsub_quick=3389):
     q = tier == 'quick'
     M = os.path.join(ROOT, 'vf/ch/layout.py')
     ksub = {'KNOWN = set()': 'KNOWN = ' + repr(set(known))} if known else {}
-    nlexeme, nlex = (12, 2) if q else (16, 3)
+    nlexeme, nlex = (12, 2) if q else (12, 3)
     jobs = pipe.jobs_for('vf/ch/layout.py', func_lex, nlexeme, nlex, 300 if q else 2400, extra_subst=ksub, why=None)
     gsub = gsub_quick if q else 211          # a 1/GSUB slice of the 338k grammar scripts, chosen by VERIF_SEED
     for oi in range(14):
